@@ -1,6 +1,6 @@
 """C07 — a GN / LM step is the documented damped, weighted linear solve on the manifold.
 
-Model: lean/Pose/Model/GNStep.lean (hcat = flatten_row_jacobian, pickCorrector, wblocks / blockDiag = normalize_RWJ,
+Model: lean/Pose/Model/GNStep.lean (flattenRowJac = flatten_row_jacobian, pickCorrector, wblocks / blockDiag = normalize_RWJ,
 gnA / gnb, lmJT / lmA0 / dampDiag / lmAk / lmb, updateParams / stepUpdate with the shared Lie model for Exp(d)·X);
 theorems: lean/Proofs/Props/C07.lean.
 
@@ -14,7 +14,8 @@ Every case is a random residual model (harness/util_c07.py) driven through 1-3 c
   recording strategy  : sees the parameters right after `+D`, and (J, D, R) handed to `strategy.update`
 
 Correspondence streams (implementation vs the Lean model in 192-bit arithmetic; ctx.disagree)
-  hcat    : modjac's raw blocks -> model `hcat` == the J_i the corrector saw                       (exact)
+  hcat    : modjac's raw blocks of every parameter -> model `flattenRowJac` (frozen blocks dropped) == the J_i the
+            corrector saw                                                                           (exact)
   pick    : which corrector object served which residual == model `pickCorrector`                  (exact)
   wdiag   : RobustModel.normalize_RWJ's block-diagonal weight == model `blockDiag ∘ wblocks` for every residual rank
             <= 4, every documented weight shape, d = 1..3 (+ malformed shapes: both raise)          (exact)
@@ -30,9 +31,13 @@ Oracles on the real code (the property's own statement; ctx.fail with a concrete
             clamp and the cumulative damping product — no block_diag, no in-place update
   solve   : the D returned by the library solver satisfies the normal equations of (A, b) (GN; minimum norm for PINV)
             resp. A_k D = b (LM)
+  corrector: with corrector=None the corrected (R', J') are sqrt(rho_i'(|R_item|^2))·(R, J) for the i-th configured kernel
   update  : frozen parameters bit-identical; trainable ones equal the retraction by their own slice of D computed with
             the library's Exp / @ on float64 copies; strategy.update receives cat(J'), D, cat(R')
-  frozen  : a model with a requires_grad=False parameter must still step (this found defect D29, since repaired in /repo)
+  frozen  : a model with a requires_grad=False parameter must still step and move every trainable parameter by its own
+            slice (this found defects D29 / D29b, since repaired in /repo)
+Degenerate situations are counted, not judged (input_distribution `degenerate.*`): non-finite forward pass after a
+deliberately bad trial step, |D| > 1e4 (Exp loses its phase / overflows), damped diagonal beyond the dtype's range.
 """
 from __future__ import annotations
 
